@@ -187,8 +187,13 @@ class BaseAdapterRegistry:
         Subclasses must still call this method.
         """
         self.__dict__['__bases__'] = bases
-        self.ro = ro.ro(self)
+        self._refresh_ro()
         self.changed(self)
+
+    def _refresh_ro(self):
+        # Recompute our resolution order from the current ``__bases__``
+        # of ourselves and of all the registries above us.
+        self.ro = ro.ro(self)
 
     __bases__ = property(lambda self: self.__dict__['__bases__'],
                          lambda self, bases: self._setBases(bases),
@@ -963,6 +968,12 @@ class AdapterRegistry(BaseAdapterRegistry):
 
         super()._setBases(bases)
 
+    def _refresh_ro(self):
+        super()._refresh_ro()
+        # The resolution orders of our sub-registries include ours.
+        for sub in self._v_subregistries.keys():
+            sub._refresh_ro()
+
     def changed(self, originally_changed):
         super().changed(originally_changed)
 
@@ -971,7 +982,14 @@ class AdapterRegistry(BaseAdapterRegistry):
 
 
 class VerifyingAdapterLookup(AdapterLookupBase, VerifyingBase):
-    pass
+
+    def changed(self, originally_changed):
+        if originally_changed is None:
+            # A generation check failed (or we were asked to start over):
+            # a registry above ours changed, possibly its ``__bases__``,
+            # and nobody tells a verifying registry about that.
+            self._registry._refresh_ro()
+        super().changed(originally_changed)
 
 
 @implementer(IAdapterRegistry)
